@@ -25,4 +25,6 @@ def streams(tier, seed):
     q = tier == "quick"
     n = 150 if q else 6000
     return [{"name": "prog-" + p, "stream": "prog", "count": n * (3 if p == "dag" else 1), "extra": (p,), "judge": judge}
-            for p in ("dag", "banks", "regfile", "memory", "status")]
+            for p in ("dag", "banks", "regfile", "memory", "status")] + [
+        # programs with one planted fault: a faulty program that slips through is where the settlement stops being one
+        {"name": "prog-fault", "stream": "prog-fault", "count": 400 if q else 15000, "judge": judge}]
